@@ -21,9 +21,12 @@ func init() {
 			"(2) no call of a method that writes state.Cluster or state.NodePoolState memory — the writer set is derived from the code (stores, map updates, deletes, sync.Map/atomic mutations through the receiver, transitively), the only allowed ones being the pod bookkeeping named in the property; " +
 			"(3) the state nodes handed to the scheduler derive from Cluster.DeepCopyNodes, which deep-copies every node, and the deep copies of StateNode/HostPortUsage/VolumeUsage allocate every reference-typed field afresh; " +
 			"(4) no store into a field of cloudprovider.InstanceType/Offering/InstanceTypeOverhead in the cone except the audited sync.Once memo; InstanceTypeOptions is only ever assigned freshly built slices and no in-place sorter is applied to the provider's instance-type map; " +
-			"(5) the informer-cache aliases (UnsafeDisableDeepCopy reads) inside the cone are the audited ones and nothing stores through the aliased objects; capacity-buffer virtual pods are copied before scheduling; the pod being relaxed is a DeepCopy.",
-		NotCovered: []string{"mutation through aliasing that the field-path analysis cannot see (e.g. via reflection or unsafe)", "memory reachable only through dependency code", "events published by a simulation (allowed by the property)"},
-		Rules:      c18Rules,
+			"(5) the informer-cache aliases (UnsafeDisableDeepCopy reads) inside the cone are the audited ones and nothing stores through the aliased objects; capacity-buffer virtual pods are copied before scheduling; the pod being relaxed is a DeepCopy; " +
+			"(6) the cluster-state accessors a simulation calls (Nodes, ForPodsWithAntiAffinity, GetDaemonSetPod, DeepCopyNodes) only read: no instruction under the cone — in a method body, in a closure handed to sync.Map.Range / lo.Map / an iterator, or in a helper the memory is passed to — stores, updates, deletes, sync.Map- or atomic-mutates, sorts or otherwise writes memory whose origin (traced back through loads, phis, locals, captured variables, sync.Map loads and the results of karpenter functions) passes through a field of state.Cluster / state.NodePoolState, the allowed pod bookkeeping excepted (C18.WSET6); " +
+			"(7) the same origin tracing for provider catalogue memory: an in-place adjustment in the cone never lands in a map / slice / object that may be (an alias of) a field of InstanceType / Offering / InstanceTypeOverhead, also when it went through a phi or through a helper that can hand back its argument (C18.WSET7), and every ResourceList-returning helper of utils/resources returns a map made on that path — a parameter is handed back only by an in-place API that also writes into it (MergeInto) (C18.RET1).",
+		NotCovered: []string{"mutation through aliasing that the field-path analysis cannot see (e.g. via reflection or unsafe)", "memory reachable only through dependency code", "events published by a simulation (allowed by the property)",
+			"origin tracing (C18.WSET6/WSET7/RET1) takes the result of a dependency function (maps.Clone, lo.Assign, DeepCopy, resourcehelper.PodRequests …) or of an interface / dynamic call to be fresh, does not follow the elements of a slice built by append, and stops at the parameters of the function that performs the write unless the callee-side summaries (ParamWrites for maps / slices, DerefWrites for pointers) carry it to the call site"},
+		Rules: c18Rules,
 	})
 }
 
@@ -126,6 +129,16 @@ func c18Rules(tier string) []Rule {
 			}
 			return out
 		}},
+		// ---- alias-aware write scans (round 4)
+		// the accessors of cluster state that a simulation calls (ForPodsWithAntiAffinity, Nodes, ForEachNode-style
+		// iterators, NodePoolState readers …) only read: nothing under the cone modifies memory reached through a field of
+		// Cluster / NodePoolState — wherever the write sits (method body, closure handed to sync.Map.Range, helper function)
+		core.Custom{ID: "C18.WSET6", Kind: "WSET", Run: c18ClusterMemory},
+		// scratch arithmetic of a simulation is done on private maps: an in-place adjustment in the cone never lands in a
+		// map that may be (an alias of) a provider catalogue field, also when the map went through a helper's result or a phi
+		core.Custom{ID: "C18.WSET7", Kind: "WSET", Run: c18ProviderAliases},
+		// …which rests on the ResourceList helpers handing back fresh maps, never (part of) an argument
+		core.Custom{ID: "C18.RET1", Kind: "RET", Run: c18FreshResourceLists},
 		core.Custom{ID: "C18.PROV2", Kind: "PROV", Run: func(w *core.World, id string) []core.Result {
 			return core.ArgProvenance(w, id, "(*sched.Scheduler).Solve", `^call \(\*sched\.Scheduler\)\.trySchedule\(`, 2, `^\(\*corev1\.Pod\)\.DeepCopy\(`, "the pod that relaxation mutates is a DeepCopy of the queued pod")
 		}},
@@ -516,6 +529,203 @@ func c18NodeObjects(w *core.World, id string) []core.Result {
 	}
 	if len(out) == 0 {
 		out = append(out, core.OK(id, "WSET", "WSET:node-objects", len(order), fmt.Sprintf("cone of %d functions: no write through a corev1.Node (%d writers exist outside the cone)", len(order), ctl)))
+	}
+	return out
+}
+
+// c18SimAllowed: the pod bookkeeping a simulation may do in cluster state (same list as C18.CONE3).
+var c18SimAllowed = map[string]string{
+	"(*state.Cluster).MarkPodSchedulingDecisions":  "pod bookkeeping named by the property",
+	"(*state.Cluster).UpdatePodToNodeClaimMapping": "pod bookkeeping named by the property",
+	"(*state.Cluster).AckPods":                     "pod bookkeeping (first-seen timestamps)",
+}
+
+// C18.WSET6: no instruction under the simulation cone modifies memory reached through a field of Cluster / NodePoolState.
+func c18ClusterMemory(w *core.World, id string) []core.Result {
+	var roots []*ssa.Function
+	for _, n := range append(append([]string{}, c18Roots...), c18SolveRoots...) {
+		f := w.Fn(n)
+		if f == nil {
+			return []core.Result{core.Anchor(id, "WSET", n)}
+		}
+		roots = append(roots, f)
+	}
+	isAllowed := func(f *ssa.Function) bool { _, ok := c18SimAllowed[core.FnName(core.RootFn(f))]; return ok }
+	parent, order := w.Cone(roots, isAllowed)
+	var fns []*ssa.Function
+	accessors := map[string]bool{}
+	for _, f := range order {
+		if isAllowed(f) {
+			continue
+		}
+		fns = append(fns, f)
+		if n := core.FnName(core.RootFn(f)); strings.HasPrefix(n, "(*state.Cluster).") || strings.HasPrefix(n, "(*state.NodePoolState).") {
+			accessors[n] = true
+		}
+	}
+	typs := map[string]bool{"state.Cluster": true, "state.NodePoolState": true}
+	recvW := w.ReceiverWriters("state.Cluster", "state.NodePoolState", "state.StateNode", "scheduling.HostPortUsage", "scheduling.VolumeUsage")
+	var out []core.Result
+	hits, scanned, _ := w.SharedWrites(fns, typs, recvW)
+	for _, h := range hits {
+		name := core.FnName(core.RootFn(h.Instr.Parent()))
+		if h.Exhausted {
+			out = append(out, core.Result{ID: id, Kind: "WSET", Construct: "WSET:cluster-memory@" + name, Status: core.Undecided, Pos: w.InstrPos(h.Instr),
+				Msg: "the origin of the memory modified by `" + clipStr(w.RenderInstr(h.Instr), 100) + "` could not be traced within the bound"})
+			continue
+		}
+		out = append(out, core.Bad(id, "WSET", "WSET:cluster-memory@"+name, w.InstrPos(h.Instr),
+			fmt.Sprintf("a simulation modifies cluster state: `%s` (%s) in %s writes memory reached through %s.%s; the accessors a simulation calls must only read (reached via %s)",
+				clipStr(w.RenderInstr(h.Instr), 100), h.How, name, h.Via.Struct, h.Via.Field, core.PathTo(parent, h.Instr.Parent()))))
+	}
+	const minAccessors = 4
+	if len(accessors) < minAccessors {
+		out = append(out, core.Bad(id, "WSET", "WSET:cluster-memory", "", fmt.Sprintf("vacuous: only %d Cluster / NodePoolState methods are reached by the simulation cone, %d confirmed by hand", len(accessors), minAccessors)))
+	}
+	// positive control: over the whole of package state the same scan recognises the known mutators, including a
+	// sync.Map mutation and a write that sits in a closure
+	var stateFns []*ssa.Function
+	for _, f := range w.Fns {
+		if n := core.FnName(core.RootFn(f)); strings.HasPrefix(n, "(*state.Cluster).") || strings.HasPrefix(n, "(*state.NodePoolState).") {
+			stateFns = append(stateFns, f)
+		}
+	}
+	ctl, _, _ := w.SharedWrites(stateFns, typs, nil)
+	ctlFns, ctlSync, ctlClosure := map[string]bool{}, 0, 0
+	for _, h := range ctl {
+		ctlFns[core.FnName(core.RootFn(h.Instr.Parent()))] = true
+		if strings.Contains(h.How, "sync.Map") {
+			ctlSync++
+		}
+		if h.Instr.Parent().Parent() != nil {
+			ctlClosure++
+		}
+	}
+	if len(ctlFns) < 25 || ctlSync < 10 || ctlClosure < 1 {
+		out = append(out, core.Bad(id, "WSET", "WSET:cluster-memory:control", "", fmt.Sprintf("control-missed: the scan recognises only %d mutating methods of Cluster / NodePoolState (%d sync.Map mutations, %d inside closures) — analyzer broken", len(ctlFns), ctlSync, ctlClosure)))
+	}
+	if len(out) == 0 {
+		out = append(out, core.OK(id, "WSET", "WSET:cluster-memory", len(accessors), fmt.Sprintf("cone of %d functions, %d in-place writes examined: none reaches memory of Cluster / NodePoolState; %d accessor methods reached: %v (control: %d mutators recognised outside, %d sync.Map, %d in closures)",
+			len(fns), scanned, len(accessors), sortedKeys(accessors), len(ctlFns), ctlSync, ctlClosure)))
+	}
+	return out
+}
+
+func sortedKeys(m map[string]bool) []string {
+	var out []string
+	for k := range m {
+		out = append(out, k)
+	}
+	sort.Strings(out)
+	return out
+}
+
+// C18.WSET7: in-place writes under the cone whose target may alias provider catalogue memory.
+func c18ProviderAliases(w *core.World, id string) []core.Result {
+	order, parent, missing := coneFns(w, append(append([]string{}, c18Roots...), c18SolveRoots...))
+	if missing != "" {
+		return []core.Result{core.Anchor(id, "WSET", missing)}
+	}
+	typs := map[string]bool{"cloudprovider.InstanceType": true, "cloudprovider.Offering": true, "cloudprovider.InstanceTypeOverhead": true}
+	audited := map[string]string{
+		"(*cloudprovider.InstanceType).precompute": "sync.Once-guarded memo of derived allocatable values (same entry as C18.WSET1)",
+	}
+	inCone := map[*ssa.Function]bool{}
+	for _, f := range order {
+		inCone[f] = true
+	}
+	var out []core.Result
+	hits, scanned, viaCalls := w.SharedWrites(order, typs, nil)
+	for _, h := range hits {
+		name := core.FnName(core.RootFn(h.Instr.Parent()))
+		if _, ok := audited[name]; ok {
+			continue
+		}
+		if c18FreshAtCallers(w, h.Instr, inCone) {
+			continue
+		}
+		if h.Exhausted {
+			out = append(out, core.Result{ID: id, Kind: "WSET", Construct: "WSET:provider-aliases@" + name, Status: core.Undecided, Pos: w.InstrPos(h.Instr),
+				Msg: "the origin of the memory modified by `" + clipStr(w.RenderInstr(h.Instr), 100) + "` could not be traced within the bound"})
+			continue
+		}
+		through := ""
+		if len(h.Via.Thru) > 0 {
+			through = ", handed back by " + strings.Join(h.Via.Thru, " → ") + " (helper#parameter)"
+		} else if len(h.Via.Calls) > 0 {
+			through = ", returned by " + strings.Join(h.Via.Calls, " → ")
+		}
+		out = append(out, core.Bad(id, "WSET", "WSET:provider-aliases@"+name, w.InstrPos(h.Instr),
+			fmt.Sprintf("a simulation can modify the cloud provider's catalogue: `%s` (%s) in %s modifies in place a value that may be %s.%s%s (reached via %s)",
+				clipStr(w.RenderInstr(h.Instr), 100), h.How, name, h.Via.Struct, h.Via.Field, through, core.PathTo(parent, h.Instr.Parent()))))
+	}
+	if viaCalls < 5 {
+		out = append(out, core.Bad(id, "WSET", "WSET:provider-aliases", "", fmt.Sprintf("vacuous: only %d of %d in-place writes in the cone were traced through a helper's result", viaCalls, scanned)))
+	}
+	if len(out) == 0 {
+		out = append(out, core.OK(id, "WSET", "WSET:provider-aliases", viaCalls, fmt.Sprintf("cone of %d functions: %d in-place writes examined (%d traced through helper results), none may alias a provider catalogue field", len(order), scanned, viaCalls)))
+	}
+	return out
+}
+
+// C18.RET1: every function of utils/resources that returns a ResourceList returns a fresh map.
+func c18FreshResourceLists(w *core.World, id string) []core.Result {
+	var out []core.Result
+	n := 0
+	for _, fn := range w.Fns {
+		if fn.Parent() != nil || fn.Synthetic != "" || core.FnPkg(fn) != "utils/resources" || len(fn.Blocks) == 0 {
+			continue
+		}
+		res := fn.Signature.Results()
+		for i := 0; i < res.Len(); i++ {
+			if core.TypeStr(res.At(i).Type()) != "corev1.ResourceList" {
+				continue
+			}
+			n++
+			name := core.FnName(fn)
+			inPlace := w.ParamWrites(fn)
+			for _, b := range fn.Blocks {
+				if len(b.Instrs) == 0 {
+					continue
+				}
+				ret, ok := b.Instrs[len(b.Instrs)-1].(*ssa.Return)
+				if !ok || i >= len(ret.Results) {
+					continue
+				}
+				r := w.AliasOrigins(core.ResolveRet(ret, i))
+				if r.Exhausted {
+					out = append(out, core.Result{ID: id, Kind: "RET", Construct: "RET:fresh-result@" + name, Status: core.Undecided, Pos: w.InstrPos(ret), Msg: "the origin of the returned ResourceList could not be traced within the bound"})
+					continue
+				}
+				for _, l := range r.Leaves {
+					if l.Fresh {
+						continue
+					}
+					// an explicit in-place API (the function also writes into that parameter, as MergeInto does with its
+					// destination) may hand the parameter back: its call sites are policed by the write scans
+					if p, ok := l.V.(*ssa.Parameter); ok && p.Parent() == fn {
+						pi := -1
+						for k, q := range fn.Params {
+							if q == p {
+								pi = k
+							}
+						}
+						if inPlace[pi] {
+							continue
+						}
+					}
+					out = append(out, core.Bad(id, "RET", "RET:fresh-result@"+name, w.InstrPos(ret),
+						fmt.Sprintf("%s can return (memory of) `%s` instead of a fresh ResourceList (`%s`): callers adjust the result in place (InstanceType.computeAllocatable, RequestsForPods, the scheduler's remaining-resource arithmetic), which would then write into the caller's input — e.g. the provider's InstanceType.Capacity",
+							name, clipStr(w.Render(l.V), 60), clipStr(w.RenderInstr(ret), 80))))
+				}
+			}
+		}
+	}
+	if n < 7 {
+		out = append(out, core.Bad(id, "RET", "RET:fresh-result", "", fmt.Sprintf("vacuous: %d ResourceList-returning functions found in utils/resources, 8 confirmed by hand", n)))
+	}
+	if len(out) == 0 {
+		out = append(out, core.OK(id, "RET", "RET:fresh-result", n, fmt.Sprintf("%d ResourceList-returning helpers of utils/resources: every returned map is made in the function (or by a callee) — a parameter is handed back only by an in-place API that also writes into it", n)))
 	}
 	return out
 }
